@@ -136,6 +136,9 @@ def lean_prepare(prop, tier):
         else:
             rc, out = sh(["lake", "env", "lean", audit_file], cwd=LEAN)
             st.build_log += out
+            if rc != 0:
+                errs = re.findall(r"^(\S+\.lean:\d+:\d+): error: (.*)$", out, re.M)
+                st.broken.append("the axiom audit file does not elaborate: %s" % ("; ".join("%s %s" % (a, b[:120]) for a, b in errs[:3]) or "lean rc=%s" % rc))
             for m in re.finditer(r"'([^']+)' depends on axioms: \[([^\]]*)\]", out.replace("\n ", " ").replace("\n", " ")):
                 st.axioms[m.group(1)] = [a.strip() for a in m.group(2).split(",") if a.strip()]
             for m in re.finditer(r"'([^']+)' does not depend on any axioms", out):
@@ -187,6 +190,7 @@ def generated_deps(prop):
                 out.add(imp.split(".")[-1])
             walk(imp)
     walk("DateutilVerif.Properties.%s" % prop)
+    walk("DateutilVerif.Audit.%s" % prop)       # obligations about re-translated functions live in modules the audit file imports
     return out
 
 
